@@ -104,7 +104,8 @@ class ProgGen:
             "words.first", "nums", "nums.size", "nums[1]", "ghost", "ghost.x.y", "user.ghost",
             "products[99].title", "user.tags[n]", "now", "forloop.index", "forloop.parentloop.index0",
             "who", "item", "item.title", "item.price", "p.title", "args", "kwargs", "block.super",
-            "matter_ns", "matter_ns", "n.size", "user.age.first", "flag.last", "s.first", "s.last", "s.size", "nothing.first", "m.last",
+            "matter_ns", "matter_ns", "products.0.title", "nums.1", "nested.1.0", "user.tags.0", "h.list.2",
+            "gv", "extra", "shared.n", "n.size", "user.age.first", "flag.last", "s.first", "s.last", "s.size", "nothing.first", "m.last",
         ]
         if self.locals and r.random() < 0.3:
             return r.choice(self.locals)
@@ -353,7 +354,7 @@ class ProgGen:
 
     def n_assign(self, depth):
         r = self.rng
-        v = r.choice(["x", "y", "acc", "who", "item", "s", "t"])  # never n/m: they bound ranges and limits
+        v = r.choice(["x", "y", "acc", "who", "item", "s", "t", "x", "y", "gv", "extra", "shared", "cfgd"])  # never n/m: they bound ranges and limits
         self.locals.append(v)
         c = r.random()
         if c < 0.15:
